@@ -256,3 +256,55 @@ func VerifC06Errors(s *Session) int { return int(s.errors) }
 
 // VerifC06Synced is keys.IsSynced() of a Session.
 func (s *Session) VerifC06Synced() bool { return s.keys.IsSynced() }
+
+// ---- migration: the old process marks the Session as moving and marshals it (keys included) for the
+// new process, which reads it back; the exchange thread of the old process keeps running in between.
+
+// VerifC06MoveStart does what Migrate does before it waits for the new process: stateMoving and the
+// real writeDeviceInfo(infoMigrate) into a buffer (returned).
+func VerifC06MoveStart(s *Session) ([]byte, error) {
+	s.state.Set(stateMoving)
+	var c data.Chunk
+	if err := s.writeDeviceInfo(infoMigrate, &c); err != nil {
+		return nil, err
+	}
+	return append([]byte(nil), c.Payload()...), nil
+}
+
+// VerifC06TakeOver is the new process: a bare client Session filled by the real
+// readDeviceInfo(infoMigrate) from what the old process marshalled.
+func VerifC06TakeOver(id device.ID, m *VerifC06Mux, b []byte) (*Session, error) {
+	s := VerifC06Client(id, m)
+	c := data.NewChunk(append([]byte(nil), b...))
+	_, err := s.readDeviceInfo(infoMigrate, c)
+	return s, err
+}
+
+// VerifC06RollObs forces the re-key roll of keyNextSync in one fixed situation (a pair pending or
+// not, moving or not; client or server is the Session given) and reports whether an announcement ever
+// came out within max calls; the Session is left as it was.
+func VerifC06RollObs(s *Session, pending, moving bool, max int) bool {
+	old := s.keysNext
+	if pending {
+		s.keysNext = &data.KeyPair{}
+	} else {
+		s.keysNext = nil
+	}
+	was := s.state.Moving()
+	if moving {
+		s.state.Set(stateMoving)
+	} else {
+		s.state.Unset(stateMoving)
+	}
+	drew := false
+	for i := 0; i < max && !drew; i++ {
+		drew = s.keyNextSync() != nil
+	}
+	s.keysNext = old
+	if was {
+		s.state.Set(stateMoving)
+	} else {
+		s.state.Unset(stateMoving)
+	}
+	return drew
+}
